@@ -14,12 +14,12 @@ fn main() {
     let profile = arimaa_verif::runner::profile_from(args.get(2).map(|s| s.as_str()).unwrap_or("normal"));
     let small: u32 = args.get(3).and_then(|s| s.parse().ok()).unwrap_or(3);
     let mut runner = TestRunner::new(proptest_config(1, 42));
-    let params = GameParams { max_ops: 200, w_setup: 0, w_pos: 6, w_small: small, w_frozen: 0 };
+    let params = GameParams { max_ops: 200, w_setup: 0, w_pos: 6, w_small: small, w_frozen: 0, hanging: false };
     let mut by = std::collections::BTreeMap::new();
     for i in 0..n {
         let case = game(params).new_tree(&mut runner).unwrap().current();
         let mut st = Stats::default();
-        let r = run_case(&case, &WalkOpts { profile, expand: None }, &mut Nop, &mut st);
+        let r = run_case(&case, &WalkOpts { profile, expand: None, follow_norep: false, inject: arimaa_verif::drive::Inject::No }, &mut Nop, &mut st);
         if let Ok((end, tr)) = r {
             *by.entry(end.ended_by).or_insert(0) += 1;
             if i < 12 {
